@@ -992,7 +992,8 @@ class DirectPtychography(RNGMixin, AutoSerialize):
         if state.optimized_rotation_angle is None and rotation_angle is not None:
             state.optimized_rotation_angle = rotation_angle  # ty:ignore[invalid-assignment]
 
-        state.optimized_aberrations = best
+        # the search may have been specified under alias names (e.g. 'defocus')
+        state.optimized_aberrations = validate_aberration_coefficients(best)
         state.optimized_aberrations = state.current_aberrations(fixed_override_aberrations)
         state.study = study
 
@@ -1085,7 +1086,8 @@ class DirectPtychography(RNGMixin, AutoSerialize):
         if best_params is not None:
             best_params = best_params.copy()
             state.optimized_rotation_angle = best_params.pop("rotation_angle", None)
-            state.optimized_aberrations = best_params
+            # the search may have been specified under alias names (e.g. 'defocus')
+            state.optimized_aberrations = validate_aberration_coefficients(best_params)
 
         if state.optimized_rotation_angle is None and rotation_angle is not None:
             state.optimized_rotation_angle = rotation_angle  # ty:ignore[invalid-assignment]
